@@ -70,3 +70,27 @@ CLAIMS["C20"] = dict(
     text="For every expression of the alphabet placed as depends/if/prompt condition/menu depends/visible if/choice/menuconfig/conditional range-default-select-set, for targets chipa and chipb, the real kconfgen.write_docs is run; (a) every prompted option or choice that the real evaluator shows visible in SOME assignment of the user-settable options must have its anchor; (b) for every recorded (condition, stripped deps, shown condition) and every assignment, value(cond) AND deps == value(shown) AND deps under the real expr_value; (c) every :ref: target is an anchor defined in the same text.",
     note="Undefined symbols as relation operands are not generated (documents silent); forced-by rows filtered before _prepare_cond are not covered by (b).",
 )
+CLAIMS["C12"] = dict(
+    category="fault_enumeration",
+    technique="exhaustive crash-point enumeration (before every file-system operation and inside every write at every cut point) of every sync of every configuration history, on the real sync_deps over an interposed file system; rerun-after-crash and continuation oracles",
+    text="All histories of length 3 over 12 states (quick) / length 3 over 24 and length 4 over 10 states (thorough) of a tree with nested names, bool/int/escaped string, an option that becomes unwritten, plain/inverted/int aliases and six tree versions (option added, removed, retyped); a sync after each configuration on a fresh Kconfig. Crash-free: the set of touched .cdep files equals the set of options and aliases whose header-visible value changed; an immediate repeat performs no mutating operation. For EVERY crash point of every sync: run to the crash, rerun on a fresh instance, continue the history: nothing that differs from the last completed sync may stay untouched, the rerun completes, a further repeat touches nothing, the rest of the history satisfies the crash-free clause.",
+    note="Crash model is process death (completed operations persist, no reordering); 'touched' is a change from a forced epoch mtime, never a clock comparison; recovered states byte-identical to the crash-free state are merged with the crash-free continuation.",
+)
+CLAIMS["C13"] = dict(
+    category="fault_enumeration",
+    technique="exhaustive enumeration of generator x configuration pairs (unchanged / changed) with stat+byte oracles, and exhaustive crash-point / write-cut enumeration of write_config(save_old=True) over regular files and symlinks",
+    text="Part A: 13 library generators (write_config variants, write_autoconf, write_min_config x4, sync_deps' auto.conf) and the real kconfgen command for all 9 --output formats (in-process and as subprocess) over every ordered pair of configurations: an unchanged output keeps (inode, mtime_ns, size, bytes) and no mutating operation is logged on it; a changed output holds exactly the new bytes. Part B: write_config(save_old=True) over a regular file, relative and absolute symlink, with .old absent or older, every crash point and write cut: at least one complete configuration (new in destination, previous in .old, or previous still in destination before the backup finished) survives.",
+    note="Process-death crash model on tmpfs; kconfserver save and menuconfig _do_save reach write_config through kconfgen.write_config, which is covered.",
+)
+CLAIMS["C14"] = dict(
+    category="model_checking",
+    technique="explicit-state BFS over request histories against the real in-process run_server; model client folding every reply; fresh-server restart oracle; recompute oracle; conformance replay against a real `python -m kconfserver` subprocess",
+    text="For 7 trees (shipped test Kconfig + conditional ranges, emptying menus, choice, set/set default, twice-defined, all types) and protocol pairs (3,3),(3,2),(3,1),(2,2),(1,1), every request history up to depth 3 (quick) / 4 (thorough) over a 19-22 request alphabet (set single/multi-pass/unknown/invisible/wrong type, reset symbol/menu/all/unknown, load null/snapshot/hand file, save null/other) is executed on a fresh server; after every request the model client must equal the live full state, the live state must equal a fresh server started on the file a twin save wrote, and the state recomputed after _invalidate_all; replies must be single JSON objects carrying every channel of their version. 10/200 explored traces are replayed byte-for-byte against the real subprocess.",
+    note="Depth for (3,2),(2,2),(1,1) is 2 (quick) / 3 (thorough) to fit the budget; in-process driver swaps sys.stdin/stdout and captures the Kconfig the server builds.",
+)
+CLAIMS["C15"] = dict(
+    category="exploration",
+    technique="bounded exhaustive enumeration of the single-request matrix (every protocol key x JSON value alphabet x option type, non-JSON lines, 3 prior states) and all request sequences up to depth 3/4 over one representative per response class, on the real run_server; twin-history oracle",
+    text="Every request of the matrix (301 at protocol 3, 269 at 2 and 1; each protocol key x {null,true,0,-1,3,4,1.5,1e999,'','x','3',[],['x'],[1],{},{'A':1}}, set per option type, load/save with missing/directory/unwritable paths, non-JSON and non-object lines) in 3 prior states, and every sequence of length <=3 (quick) / 4 (thorough) over 17 representatives: the server function must return normally at EOF with exactly one JSON object line per input line, report or ignore bad parts as documented, leave the configuration equal to the twin history without the offending entry/request, and write nothing but protocol JSON to stdout; a subset is replayed on the real subprocess.",
+    note="Either reading of 'as if the offending part had not been sent' (entry removed / request removed) is accepted.",
+)
